@@ -90,13 +90,17 @@ def check_energy(case, r: R):
     tau_min = 1 / np.abs(ev).max()
     N = case['N']
     T = case['span'] * tau_max
-    t = np.linspace(0.0, T, N)
+    # the observation window need not start at 0: pulses are placed relative to the window's first sample
+    t0 = case.get('t0', 0.0) * T
+    t = t0 + np.linspace(0.0, T, N)
     dt = t[1] - t[0]
+    if t0:
+        r.cls('window-does-not-start-at-0')
     k_on, k_off, k_ramp = 2, N // 3, max(1, case['ramp'])
     inputs = {}
     for c in vsrc + isrc:
         amp = c['args'].get('V', c['args'].get('I')) * case['amps'][len(inputs) % len(case['amps'])]
-        inputs[c['id']] = (lambda a: (lambda tt: pulse(np.asarray(tt, dtype=float), a, k_on * dt, k_off * dt, k_ramp * dt)))(amp)
+        inputs[c['id']] = (lambda a: (lambda tt: pulse(np.asarray(tt, dtype=float) - t0, a, k_on * dt, k_off * dt, k_ramp * dt)))(amp)
     r.nt(len(caps) + len(inds) >= 2 and any(c['kind'] == 'resistor' for c in comps))
     if np.abs(ev.imag).max() > 1e-6 * np.abs(ev).max():
         r.cls('oscillatory')
@@ -136,7 +140,7 @@ def matrix_case(draw):
 @st.composite
 def energy_case(draw):
     return {'circuit': draw(dy.any_dynamic(max_states=4)), 'N': draw(st.sampled_from([200, 400, 800])), 'span': draw(st.sampled_from([3.0, 6.0, 12.0])),
-            'ramp': draw(st.sampled_from([1, 1, 3, 10])), 'amps': draw(st.lists(st.sampled_from([1.0, -1.0, 0.5, 2.0, 0.0]), min_size=1, max_size=3))}
+            'ramp': draw(st.sampled_from([1, 1, 3, 10])), 't0': draw(st.sampled_from([0.0, 0.0, 0.37, 1.0, 5.0])), 'amps': draw(st.lists(st.sampled_from([1.0, -1.0, 0.5, 2.0, 0.0]), min_size=1, max_size=3))}
 
 
 TESTS = [
